@@ -52,7 +52,7 @@ def _pure_place(e):
     if k == "Index":
         return _pure_place(e.get("e")) and _pure_place(e.get("i"))
     if k == "Binary":
-        return e.get("op") not in ("And", "Or") and _pure_place(e.get("l")) and _pure_place(e.get("r"))
+        return _pure_place(e.get("l")) and _pure_place(e.get("r"))
     if k == "Struct" and str(e.get("adt", "")).startswith("std::ops::Range") or k == "Struct" and str(e.get("adt", "")).startswith("core::ops::Range"):
         return all(_pure_place(f.get("e")) for f in e.get("fields", []))
     if k == "MethodCall" and e.get("name") in _PURE_METHODS and not e.get("args"):
@@ -72,6 +72,11 @@ def inline_new_locals(facts):
             continue
         known = set(known)
         body = fn["body"]
+        have = {n.get("name") for n in _walk(body) if n.get("k") == "Binding"} | {p.get("name") for p in fn.get("params", [])}
+        if known - have:
+            # a baseline local is gone: the unfamiliar names are probably renames, which the rules' placeholders
+            # absorb; reading them through would remove statements the rules expect
+            continue
         # everything assigned or mutably borrowed anywhere in the function (by root name / self field)
         written = set()
         for n in _walk(body):
@@ -96,8 +101,35 @@ def inline_new_locals(facts):
                             free.add(n.get("name"))
                         if n.get("k") == "Field" and isinstance(n.get("e"), dict) and n["e"].get("k") == "Path" and n["e"].get("name") == "self":
                             free.add("self." + str(n.get("name")))
-                    if not (free & written):
-                        bid = pat.get("id")
+                    bid = pat.get("id")
+                    unsafe = bool(free & written)
+                    if unsafe:
+                        # written somewhere in the function: still fine if nothing between the `let` and the last use
+                        # (in this block) writes it, and the use is not inside a loop that also writes it
+                        rest_ = blk["stmts"][i + 1:] + ([blk["expr"]] if blk.get("expr") is not None else [])
+                        last = -1
+                        for j, r_ in enumerate(rest_):
+                            if any(n.get("k") == "Path" and n.get("res") == "Local" and n.get("id") == bid for n in _walk(r_)):
+                                last = j
+                        span_ = rest_[:last + 1]
+                        w2 = set()
+                        for n in _walk(span_):
+                            if n.get("k") in ("Assign", "AssignOp"):
+                                l = n.get("l")
+                                while isinstance(l, dict) and l.get("k") in ("Field", "Index", "Unary", "DropTemps", "Paren", "AddrOf"):
+                                    if l.get("k") == "Field" and isinstance(l.get("e"), dict) and l["e"].get("k") == "Path" and l["e"].get("name") == "self":
+                                        w2.add("self." + str(l.get("name")))
+                                    l = l.get("e")
+                                if isinstance(l, dict) and l.get("k") == "Path":
+                                    w2.add(l.get("name"))
+                            if n.get("k") == "MethodCall" and str(n.get("recv_ty", "")).startswith("&mut"):
+                                r0 = n.get("recv")
+                                while isinstance(r0, dict) and r0.get("k") in ("Field", "Index", "Unary", "DropTemps", "Paren", "AddrOf"):
+                                    r0 = r0.get("e")
+                                if isinstance(r0, dict) and r0.get("k") == "Path":
+                                    w2.add(r0.get("name"))
+                        unsafe = bool(free & w2) or last < 0
+                    if not unsafe:
                         init = st["init"]
 
                         def sub(n):
